@@ -8,7 +8,7 @@ CHECKS = {
         'has ended the repaired listener is never blocked and finishes within a bounded number of its own steps with the channel closed and the hook run exactly once - refuted by a '
         'witness schedule for the pinned code (defect D10: final send blocks for ever on the full reply channel); (2) the handler side (NewCommandHandler[WithResult] -> OnCommandProcessed) '
         'composed with the C02 Router model: one reply per delivery carrying the command\'s operation id, result and error text, Ack iff the reply went out and AckCommandErrors or no error, '
-        'settlement last and an Ack only after the publisher accepted the reply. (3) the caller side (SendWithReply / SendWithReplies) as its own thread composed with the listener: SendWithReply returns exactly one reply - the timeout reply or (the first) reply of its own operation id - or the context error, never a foreign reply or the zero Reply of a closed channel, and after it returned the listener finishes; the SendWithReplies channel is closed exactly once; (4) the product of N listeners on one topic is N independent single-listener systems, so replies never cross in the concurrent system; (5) all of it for any UnmarshalReply, and the operation id of the command is stamped over whatever a custom MarshalReply wrote. (6) N concurrent deliveries through one backend are N independent runs of the sequential handler-side model (each reply owns its metadata map; refuted for a shared map). (7) the handler's error value (plain, wrapped, context sentinels, the handler context's own Err()) and context state are inputs the handler side provably ignores: a reply is published for every handler outcome. Tied to the code on every run: concurrent requesters on one reply topic over a real Router + GoChannel, '
+        'settlement last and an Ack only after the publisher accepted the reply. (3) the caller side (SendWithReply / SendWithReplies) as its own thread composed with the listener: SendWithReply returns exactly one reply - the timeout reply or (the first) reply of its own operation id - or the context error, never a foreign reply or the zero Reply of a closed channel, and after it returned the listener finishes; the SendWithReplies channel is closed exactly once; (4) the product of N listeners on one topic is N independent single-listener systems, so replies never cross in the concurrent system; (5) all of it for any UnmarshalReply, and the operation id of the command is stamped over whatever a custom MarshalReply wrote. (6) N concurrent deliveries through one backend are N independent runs of the sequential handler-side model (each reply owns its metadata map; refuted for a shared map). (7) the error value of the handler (plain, wrapped, context sentinels, the own Err() of the handler context) and context state are inputs the handler side provably ignores: a reply is published for every handler outcome. Tied to the code on every run: concurrent requesters on one reply topic over a real Router + GoChannel, '
         'the hook-stamp schedule of every listener replayed on the model, every delivery trace compared, and the proved acceptors judging what the implementation did.'),
   note=('Trusted: Coq kernel + vm_compute; Go channel/select/context/defer semantics as modelled; encoding/json as a tabulated function; the harness (forwarding subscriber, scripted reply publisher, '
         'Backend wrapper, watchdog + goroutine dump) and the stamp->label mapping. Liveness is "never blocked + decreasing measure" (weak fairness of the Go scheduler), not a wall-clock bound. '
